@@ -27,6 +27,22 @@ for f in sorted(glob.glob(V+"/mutants/*.patch")):
     prop=L[0].split(":",1)[1].strip(); exp=L[1].split(":",1)[1].strip(); descr=L[2].lstrip("# ").strip()
     out.append("| %s | %s | %s | %s |"%(os.path.basename(f)[:-6],prop,exp,descr.replace("|","/")))
 out.append("")
+out.append("#### Behaviour-preserving refactorings (independent sub-agents; `tools/refactors.sh`; every claimed check must stay silent)\n")
+out.append("| Refactoring | Files touched | What was restructured (first line of the agent's notes) | Suite with it | Checks alarming now |")
+out.append("|---|---|---|---|---|")
+def vkey(d):
+    m=re.search(r"R(\d+)$",d); return int(m.group(1)) if m else 0
+for d in sorted(glob.glob(V+"/refactors/R*"),key=vkey):
+    m=json.load(open(d+"/meta.json"))
+    notes=open(d+"/notes.md").read() if os.path.exists(d+"/notes.md") else ""
+    first=""
+    for l in notes.splitlines():
+        l=l.strip()
+        if l and not l.startswith("#"):
+            first=l; break
+    files=sorted(set(re.findall(r"^\+\+\+ b/(\S+)",open(d+"/patch.diff").read(),re.M)))
+    out.append("| %s | %s | %s | %s | %s |"%(m["refactor"],", ".join(os.path.basename(f) for f in files),first[:160].replace("|","/"),"green" if m.get("suite_green_with_change") else "NOT GREEN",", ".join(m["checks_reporting_violation"]) or "none (silent)"))
+out.append("")
 k=json.load(open(V+"/known_findings.json"))
 out.append("#### Known findings (genuine defects recorded, not repaired)\n")
 out.append("| Property | Obligation key | What fails | Why not repaired |")
